@@ -356,6 +356,22 @@ def run(world, rep, tier, only=None):
         rep.ob("C20.h", site(mm, "owner of a block in a backup area is searched among all old groups"), whole and from0,
                "loop `%s`: runs to old_fs->group_desc_count: %s; starts at 0: %s" % (T.pp(cond or {})[:50], whole, from0))
 
+    # ------------------------------------------------------------------ C20.i a backup moves with the last group only if that is where it was
+    # With sparse_super2 the second backup slot normally names the last group, and a grow moves it along.  With a single
+    # backup the slot may hold group 1: moving *that* to the new last group leaves the blocks of the old backup
+    # allocated and the backup where nobody frees it.  The store that moves the slot is decided by a comparison of the
+    # slot with the old last group (or by the file system having had fewer than three groups).
+    afi = rs.fn("adjust_fs_info", "resize/resize2fs.c")
+    mv = [n for n in afi.events("S") if "s_backup_bgs" in T.field_names(n.ev["lhs"]) and T.path(n.ev.get("rhs")) == "last_bg"]
+    rep.floor("C20.i stores that move a backup slot to the last group in adjust_fs_info", len(mv), 1)
+    for i, n in enumerate(mv):
+        lits = control_lits(afi, n) + restrict_lits(afi, n)
+        tied = any(t is not None and "s_backup_bgs" in T.field_names(a_) and
+                   (("old_last_bg" in T.vars_in(a_)) or depends_on(afi, a_, lambda y: T.path(y) == "old_last_bg"))
+                   for t, a_ in lits)
+        rep.ob("C20.i", site(afi, "backup slot moved only from the old last group#%d" % i), tied,
+               "`%s` (line %d) is decided by a comparison of s_backup_bgs[] with old_last_bg" % (n.text()[:40], n.line))
+
     # ------------------------------------------------------------------ C20.f the backup search starts afresh for every block size
     # get_backup_sb() tries each block size in turn and, for each, walks the prescribed backup groups with the
     # ext2fs_list_backups() iterator.  The iterator state must be initialised inside the block-size loop: initialised
